@@ -652,6 +652,7 @@ package rosmar
 //@   loop 1002 body [C07:wwx.macro-keeps-body]    iter("call:event.expandXattrMacros") == 1 && val == nil ==> callrecv("event.expandXattrMacros").value == (if r.present then r.value else NULL)
 //@   ensures [C01,C07:wwx.err-unchanged]  err != nil ==> db == old(db)
 //@   ensures [C08:wwx.err-noevent]        err != nil ==> lenlist(posted) == 0
+//@   ensures [C05:wwx.deletebody-refuses-only-a-tombstone] opts.deleteBody && opts.requireExistingDoc && r.present && !isnull(r.value) && count("call:event.expandXattrMacros") == 0 ==> !ismissing(err)
 //@   ensures [C05,C06:wwx.docinv]         DocInv(r2)
 //@   ensures [C11:wwx.frame]              forall o: DocId :: o != mkId(c.id, key) ==> docAt(o) == old(docAt(o))
 //@   ensures [C11:wwx.scoped]             stmtsScoped(c.id)
@@ -740,6 +741,7 @@ package rosmar
 //@   loop 1 invariant [C06:WriteResurrection.loop] true
 //@   ensures [C06:WriteResurrection.at-most-once] count("call:Collection.writeWithXattrs") <= 1
 //@   ensures [C06:WriteResurrection.needs-body] isnull(value) ==> !called && err != nil
+//@   ensures [C06:WriteResurrection.any-body-is-a-body] !isnull(value) && !called ==> !issentinel(err, "sg-bucket.ErrNeedBody")
 //@   ensures [C06:WriteResurrection.insert-mode] called ==> callarg("Collection.writeWithXattrs", 6).insertDoc && callarg("Collection.writeWithXattrs", 4) == nil && !callarg("Collection.writeWithXattrs", 6).requireExistingDoc && !callarg("Collection.writeWithXattrs", 6).deleteBody && !callarg("Collection.writeWithXattrs", 6).preserveXattr && !callarg("Collection.writeWithXattrs", 6).insertXattr
 //@   ensures [C06,C07:WriteResurrection.delegates] called ==> callarg("Collection.writeWithXattrs", 1) == k && callarg("Collection.writeWithXattrs", 0) == c && callarg("Collection.writeWithXattrs", 7) == opts && callarg("Collection.writeWithXattrs", 2).marshaled == value && isnull(callarg("Collection.writeWithXattrs", 2).raw) && isnull(callarg("Collection.writeWithXattrs", 2).parsed)
 //@   ensures [C14:WriteResurrection.expiry-arg] called ==> ((opts != nil && opts.PreserveExpiry) <==> callarg("Collection.writeWithXattrs", 5) == nil) && (callarg("Collection.writeWithXattrs", 5) != nil ==> *callarg("Collection.writeWithXattrs", 5) == exp)
@@ -1157,4 +1159,5 @@ package rosmar
 //@   ensures [C03:WriteUpdateWithXattrs.stores-callback-result] iter("call:Collection.WriteWithXattrs") == 1 ==> callarg("Collection.WriteWithXattrs", 5) == cbret(0).Doc && callarg("Collection.WriteWithXattrs", 6) == cbret(0).Xattrs
 //@   ensures [C05,C06:WriteUpdateWithXattrs.resurrection-stores-callback-result] iter("call:Collection.WriteResurrectionWithXattrs") == 1 ==> callarg("Collection.WriteResurrectionWithXattrs", 2) == key && callarg("Collection.WriteResurrectionWithXattrs", 4) == cbret(0).Doc && callarg("Collection.WriteResurrectionWithXattrs", 5) == cbret(0).Xattrs
 //@   ensures [C05:WriteUpdateWithXattrs.refuses-a-tombstone-only-for-xattr-deletes] issentinel(err, "sg-bucket.ErrDeleteXattrOnTombstone") && count("call:Collection.WriteWithXattrs") + count("call:Collection.WriteTombstoneWithXattrs") + count("call:Collection.WriteResurrectionWithXattrs") == 0 && count("callback") == 1 && cbret(1) == nil ==> len(cbret(0).XattrsToDelete) > 0
+//@   ensures [C05:WriteUpdateWithXattrs.tombstoning-deletes-the-body-that-is-there] iter("call:Collection.WriteTombstoneWithXattrs") == 1 ==> (callarg("Collection.WriteTombstoneWithXattrs", 7) <==> !isnull(callbackarg(0)))
 //@   ensures [C20:WriteUpdateWithXattrs.unlocked] any: nolocks()
